@@ -670,6 +670,7 @@ def run_same_def(ctx, case):
     ctx.count("kind:" + case["kind"])
     where = case["where"]
     expected = "ConditionalError" if where == "cond" else "MismatchedExit" if where == "cfg" else "ValueError"
+    ctx.count("variant:same-def-" + where)
     try:
         if where == "cond":
             c = Conditional(tys.Bool, [])
@@ -687,6 +688,18 @@ def run_same_def(ctx, case):
                 b1.set_single_succ_outputs(b1.load(b))
             cfg.branch_exit(b0[0])
             cfg.branch_exit(b1[0])
+        elif where in ("polyfunc", "polyfunc-declared-later"):
+            # a function WITH type parameters whose outputs are declared (up front, or by declare_outputs)
+            from hugr.build import Module
+
+            m = Module()
+            tp = [tys.TypeTypeParam(tys.TypeBound.Copyable)]
+            if where == "polyfunc":
+                f = m.define_function("f", [tys.Variable(0, tys.TypeBound.Copyable)], [a.type_()], tp)
+            else:
+                f = m.define_function("f", [tys.Variable(0, tys.TypeBound.Copyable)], None, tp)
+                f.declare_outputs([a.type_()])
+            f.set_outputs(f.load(b))
         else:
             from hugr.build import Module
 
@@ -750,7 +763,8 @@ def run(ctx):
         r = ctx.rng("inject", i)
         kind = KINDS[i % len(KINDS)]
         if kind == "rows-differ-in-type-arguments":
-            case = {"kind": kind, "where": r.choice(["cond", "cfg", "func"]), "types": r.choice(["int", "array", "list"]),
+            case = {"kind": kind, "where": r.choice(["cond", "cfg", "func", "polyfunc", "polyfunc-declared-later"]),
+                    "types": r.choice(["int", "array", "list"]),
                     "swap": r.random() < 0.5, "site": None, "prog": None}
             ctx.guard("inject", case, run_case, ctx, case)
             ctx.case("inject", case, True)
